@@ -308,3 +308,5 @@ class C09(Check):
 
 
 CHECK = C09()
+# scope added in later rounds, kept in the evidence text
+CHECK.rule += ' scaffold_1 may end in a 1-bp contig that no bait touches: a contig outside every bait counts as sequence absent from the map.'
